@@ -1,12 +1,14 @@
 """C19 — a failing output sink stops the render with the sink's own error (DESIGN.md §3 C19)."""
-import json, re
+import json, os, re, time
+from concurrent.futures import ThreadPoolExecutor
+import common
 
 READY = True
 
 META = {
     "technique": "Lean 4 proof over an output state machine (sink script x write_all x WriteWrapper x capture stack x VM op sequence) + differential fault injection at every write call of real renders",
     "category": "proof",
-    "text": "Kernel-checked theorems for EVERY sequence of output operations and EVERY per-call sink behaviour (accept all / k bytes / half / zero / Err of any kind incl. Interrupted): the bytes the sink accepted are a prefix of the string the plain render builds; a call at which the sink failed is the last call it sees; the API then returns WriteFailure whose source is exactly the sink's error (whatever include/super nesting was unwound), never Ok, never another kind, never a panic; without a sink failure result and bytes equal the plain render's; captured/discarded regions never reach the sink. The model is tied to /repo by running real templates (fixed set + generated: macros, call blocks, set/filter blocks, includes, imports, inheritance with super, recursive loops, autoescape, big values, custom objects) through Template::render_captured_to and State::render_block_to_write (direct, from a template function, with a custom formatter) into an instrumented io::Write that fails at every k-th write call with every behaviour; the REAL sequence of output operations of every render (feature-guarded hook verif_hooks::output: each write_str/write_char on the Output with the target it was routed to, begin/end capture with the captured value, include/super nesting) and the failure script are fed to the Lean model: the model's capture stack must route every real write where the engine did and pop the values the engine popped, and run(ops, sink) must reproduce the sink's calls, accepted bytes, checksums, log digest, result and the number of operations executed; the log of every failing run must be the clean log cut at the failing write; the log of the plain String render must equal the writer run's. A second family of programs is generated as terms of the model's structured layer (set/filter blocks, macros, includes, inheritance with super, loops, errors), unparsed to templates, and the big-step exec of the term is compared with the engine, its flattening with the real operation log. The property itself is evaluated on the real observations.",
+    "text": "Kernel-checked theorems for EVERY sequence of output operations and EVERY per-call sink behaviour (accept all / k bytes / half / zero / Err of any kind incl. Interrupted, the Err being ANY error token: bare kind, raw OS error, string / custom payload, a payload that is itself an engine error of any kind incl. WriteFailure with a source chain, a nested io::Error): the bytes the sink accepted are a prefix of the string the plain render builds; a call at which the sink failed is the last call it sees; the API then returns WriteFailure whose source is exactly the sink's error token, untouched (whatever include/super nesting was unwound, whatever the token looks like: boundary_returns_token_untouched, source_is_never_unwrapped), never Ok, never another kind, never a panic; without a sink failure result and bytes equal the plain render's; captured/discarded regions and evaluations on an Output of their own (macros, caller(), Expression::eval, block rendering from a function: Prog.own) never reach the sink. The adapter is sticky (sticky_after_error): once it holds an error no later write of the engine or of user code of ANY behaviour (UserCode strategies that see each write result and continue, swallow, return Ok) reaches the sink or changes the slot, and C19 holds with such user code (C19_with_user_strategies). write_failure / take_err / check, the check/take_err arms of both APIs and the sticky guards of WriteWrapper's methods are tied to tables regenerated from output.rs, template.rs, vm/state.rs (a branch that inspects the io::Error before wrapping it, a missing guard, a missing check breaks a `decide` theorem). The model is tied to /repo by running real templates (fixed set + generated: macros, call blocks, set/filter blocks, includes, imports, inheritance with super, recursive loops, autoescape, big values, custom objects) through Template::render_captured_to and State::render_block_to_write (direct, from a template function, with a well-behaved / a careless custom formatter that also returns look-alike WriteFailure errors of its own) into an instrumented io::Write that fails at every k-th write call with every behaviour and with its io::Error built in 11 ways (bare ErrorKind, from_raw_os_error incl. EINTR, String, own error type, minijinja::Error payload of kind InvalidOperation / UndefinedError / WriteFailure / TemplateNotFound / with a source chain / a WriteFailure whose own source is an io::Error that reads exactly like the sink's, another io::Error as payload), on the hooked and on the unhooked build; the oracle demands kind()==WriteFailure and that source() IS the sink's error: same kind, same raw OS code, same payload object by address (plus id and construction read off the returned error and compared with the model's token). The REAL sequence of output operations of every render (feature-guarded hook verif_hooks::output) and the failure script are fed to the Lean model: the model's capture stack must route every real write where the engine did and pop the values the engine popped, and run(ops, sink) must reproduce the sink's calls, accepted bytes, checksums, log digest, result token and the number of operations executed; the log of every failing run must be the clean log cut at the failing write; the log of the plain String render must equal the writer run's. A second family of programs is generated as terms of the model's structured layer (set/filter blocks, macros and call blocks on their own Output, includes, inheritance with super, loops, errors, a template function rendering a block), unparsed to templates, and the big-step exec of the term is compared with the engine (APIs full, fmt, fn), its flattening must equal the real operation log. The property itself is evaluated on the real observations.",
     "design_ref": "DESIGN.md §3 C19",
     "level_note": "Trusted: Lean kernel; hand transcription of output.rs (Output, WriteWrapper, take_err), std write_all, and the emit/capture/include/super skeleton of vm/mod.rs into MJ/Model/Output.lean. That the VM performs a sink-independent op sequence and stops at the first fmt::Error (every emit site propagates it) is validated, not proved about the Rust source: by the hook log (same operations for String and io::Write base writers; every failing run's log is a prefix of the clean log ending at the failing write) and the fault injection at every write call of every program. The hook's routing annotation is computed from the capture stack (the raw target pointer is covered only through the sink's calls). The harness builds minijinja with verif_hooks on (write_fmt is then routed piecewise through the logging write_str/write_char). Custom formatters / Object::render implementations that swallow fmt::Error are outside the property. Round 3: the Emit layer (write_escaped chunking, HtmlEscape pieces with the escape table regenerated from source, fast paths, user code failing by itself) is inside the model and compared piece by piece with the engine; all write call sites of the output/value-formatting code are regenerated from source, classified, and a non-propagating site fails a `decide` theorem; Interrupted-retry is a theorem; the sink-level streams are re-run against minijinja compiled WITHOUT verif_hooks and must equal the hooked build.",
 }
@@ -40,16 +42,30 @@ def kv(s):
     return dict(x.split("=", 1) for x in s.split(" ") if "=" in x)
 
 
+FORMS = ["s", "k", "r", "c", "mi", "mu", "mw", "mt", "mc", "mx", "i"]
+N_SHARDS = 8            # fixed (not the number of cores): the order of the lines must not depend on the machine
+N_SHARDS_UNHOOKED = 3
+
+
 def expected_failure(fail):
-    """the `res` the property demands for the first failing call observed by the probe"""
+    """the `res` the property demands for the first failing call observed by the probe:
+    WriteFailure whose source has the kind, the identity and the construction of the sink's error"""
     if fail.startswith("zero@"):
-        return "wf:wz:0"
+        return "wf:wz:0:k"      # write_all's own WriteZero error (a constant of std, no payload)
     if fail.startswith("panic@"):
         return "panic"          # a panicking sink unwinds through the render
     if fail.startswith("flush@"):
-        return "wf:ot:424242"   # (the engine does not flush; if it did, this would be the sink's error)
+        return "wf:ot:424242:s" # (the engine does not flush; if it did, this would be the sink's error)
     kind, rest = fail.split(":", 1)
     return "wf:%s:%s" % (kind, rest.split("@")[0])
+
+
+def fail_form(fail):
+    if fail.startswith("zero@"):
+        return "writezero"
+    if "@" in fail and fail.count(":") >= 2:
+        return fail.split("@")[0].split(":")[2]
+    return fail.split("@")[0]
 
 
 def judge(r, case, api, clean_res, m, o):
@@ -63,13 +79,21 @@ def judge(r, case, api, clean_res, m, o):
         r.oracle_failure(case, "bytes accepted by the writer are not a prefix of the plain render's string", "delivered-not-prefix:" + ac); n += 1
     if o["after"] != "0":
         r.oracle_failure(case, "%s write call(s) after the writer reported %s" % (o["after"], o["fail"]), "write-after-error:" + ac); n += 1
-    if o["fail"] != "none":
+    if o["fail"].startswith("badscript"):
+        r.broken.append("harness script builds an io::Error of another kind than it names: %s %s" % (case, o["fail"]))
+    elif o["fail"] != "none":
         want = expected_failure(o["fail"])
         if res != want:
             r.oracle_failure(case, "writer failed with %s but the call returned %s (kind %s); expected WriteFailure with that io::Error as source" % (o["fail"], res, o["kind"]),
                              "error-mapping:%s:%s" % (ac, res.split(":")[0] if not res.startswith("wf:") else "wrong-source")); n += 1
+        elif want != "panic" and o["src"] != "same":
+            # kind, id and construction read the same, but it is another object than the one the sink returned
+            r.oracle_failure(case, "writer failed with %s; the returned WriteFailure's source() is not the writer's io::Error itself (%s)" % (o["fail"], o["src"]),
+                             "error-mapping:%s:source-identity" % ac); n += 1
         if ac == "fn" and o["outer"] != want:
             r.oracle_failure(case, "error of render_block_to_write returned from a function surfaced as %s" % o["outer"], "fn-outer-propagation"); n += 1
+        elif ac == "fn" and want != "panic" and o["osrc"] != "same":
+            r.oracle_failure(case, "error of render_block_to_write returned from a function: the outer render's error has another source (%s)" % o["osrc"], "fn-outer-propagation:source-identity"); n += 1
     else:
         if res != clean_res:
             r.oracle_failure(case, "writer never failed but the call returned %s (clean run: %s)" % (res, clean_res), "spurious:%s:%s" % (ac, res.split(":")[0])); n += 1
@@ -83,40 +107,99 @@ def run(r):
               "with super, recursive loops, autoescape html/json, big values, custom object, runtime errors, block rendering from a "
               "function) + generated programs from a template grammar (VERIF_SEED); per program x API (render_captured_to, same "
               "with custom formatter, render_block_to_write per block, render_block_to_write inside a function): failure at every "
-              "write call k < W of the clean run with BrokenPipe/Other/WouldBlock/Interrupted, 1-byte and half short writes, "
+              "write call k < W of the clean run with BrokenPipe/Other/WouldBlock/Interrupted, the io::Error built in 11 ways "
+              "rotating over the positions (every construction meets every API; all 11 at every position of the small fixed "
+              "programs), one error with an engine-error payload at every position, 1-byte and half short writes, "
               "zero-length write; plus persistent short writes, late/never-reached failures, random mixed scripts ending in a "
               "hard failure; a third family generated as terms of the model's structured layer and unparsed to templates "
-              "(APIs full, fmt); 8 expressions evaluated on Output::null. Model input = the engine's real output-operation log. "
+              "(APIs full, fmt, fn); 8 expressions evaluated on Output::null. Model input = the engine's real output-operation log. "
+              "The harness runs as 8 (program, API) shards + 1 emit stream + 3 unhooked shards in parallel. "
               "A case is non-trivial when it is distinct and the clean run makes at least one write call")
     r.assumptions = [
         "the sink honours io::Write::write's contract n <= buf.len() and does not answer Interrupted forever",
         "std's fmt machinery (Formatter adapters, Display of numbers, DebugList/DebugMap) stops at the first fmt::Error — validated by failure injection at every piece, not modelled",
         "user supplied formatters and Object::render implementations propagate the fmt::Error of the writer they are given",
     ]
-    r.regen_tables(["C19_WRITE_SITES", "C19_WRITER_APIS", "C19_WRAPPER_SITES", "C19_SMALL_INT_LIMIT", "C19_UNHOOKED_BODIES", "C19_WRITEWRAPPER_METHODS", "C19_TRACKER_UPDATE", "HTML_ESCAPE_TABLE"])
-    r.lean_prove("MJ.Props.C19", "MJ/Audit/C19.lean", extra_targets=["drive_c19"])
-    exe = r.cargo_build("c19")
+    r.regen_tables(["C19_WRITE_SITES", "C19_WRITER_APIS", "C19_WRAPPER_SITES", "C19_SMALL_INT_LIMIT", "C19_UNHOOKED_BODIES", "C19_WRITEWRAPPER_METHODS", "C19_TRACKER_UPDATE", "HTML_ESCAPE_TABLE",
+                    "C19_BOUNDARY_BODIES", "C19_BOUNDARY_SITES", "C19_WRITEWRAPPER_STICKY"])
+    t0 = time.time()
+    # the proof build and the two harness builds are independent: run them side by side
+    with ThreadPoolExecutor(max_workers=3) as ex:
+        f_lean = ex.submit(r.lean_prove, "MJ.Props.C19", "MJ/Audit/C19.lean", ["drive_c19"])
+        f_exe = ex.submit(r.cargo_build, "c19")
+        f_exe2 = ex.submit(r.cargo_build, "c19", False, (), True)
+        f_lean.result()
+        exe, exe2 = f_exe.result(), f_exe2.result()
     if exe is None:
         return
-    rc, out, err = r.harness(exe, ["gen", r.tier])
-    if rc != 0:
-        r.broken.append(f"harness c19 exited {rc}: {err[-300:]}")
-        return
-    lines = out.splitlines()
-    model = r.driver("drive_c19", out)
-    if model is None or len(model) != len(lines):
-        r.broken.append("model driver output does not line up with the harness cases")
+    t1 = time.time()
+    drive = os.path.join(common.LEAN, ".lake", "build", "bin", "drive_c19")
+    have_driver = os.path.exists(drive)
+    if any("lake build" in b for b in r.broken):
+        # a broken proof or tie stops the combined build; the model driver may still be fine
+        have_driver = r.lean_build(["drive_c19"])[0] and os.path.exists(drive)
+    if not have_driver:
+        r.broken.append("model driver drive_c19 does not build")
+
+    def shard(exe_, args, with_model):
+        """one harness process and (hooked build) the model driver on its output"""
+        rc, out, err = r.harness(exe_, ["gen", r.tier] + args)
+        if rc != 0:
+            return (rc, err[-300:], [], None)
+        lines = out.splitlines()
         model = None
+        if with_model and have_driver:
+            rc2, mout, merr = common.sh([drive], inp=out, timeout=3000)
+            if rc2 == 0:
+                model = mout.splitlines()
+            else:
+                return (0, "driver exited %d: %s" % (rc2, merr[-300:]), lines, None)
+        return (0, "", lines, model)
+
+    jobs = [(exe, ["shard=%d/%d" % (i, N_SHARDS)], True) for i in range(N_SHARDS)] + [(exe, ["emits"], True)]
+    if exe2 is not None:
+        jobs += [(exe2, ["sub", "shard=%d/%d" % (i, N_SHARDS_UNHOOKED)], False) for i in range(N_SHARDS_UNHOOKED)]
+    with ThreadPoolExecutor(max_workers=len(jobs)) as ex:
+        results = list(ex.map(lambda j: shard(*j), jobs))
+    r.checker_cmds.append("harness c19 gen <tier> shard=i/%d | drive_c19 (in parallel), c19 gen <tier> emits | drive_c19" % N_SHARDS)
+    lines, model = [], []
+    for (rc, msg, ls, ms) in results[:N_SHARDS + 1]:
+        if rc != 0:
+            r.broken.append(f"harness c19 exited {rc}: {msg}")
+            return
+        if msg:
+            r.broken.append("model driver drive_c19: " + msg)
+        lines += ls
+        if model is not None and ms is not None and len(ms) == len(ls):
+            model += ms
+        else:
+            if have_driver and model is not None:
+                r.broken.append("model driver output does not line up with the harness cases")
+            model = None
+    out2_lines = None
+    if exe2 is not None:
+        out2_lines = []
+        for (rc, msg, ls, ms) in results[N_SHARDS + 1:]:
+            if rc != 0:
+                r.broken.append(f"unhooked harness c19 exited {rc}: {msg}")
+                out2_lines = None
+                break
+            out2_lines += ls
+    t2 = time.time()
     clean_res, cur_w = {}, 0
     hooked = {}        # case key -> (sink-level fields, oracle fields) of the hooked build
     n_prog = n_skip = n_fail_cases = n_ok_cases = n_routed = n_prefix = n_emit = n_emit_det = 0
     apis_with_failures = set()
+    forms_by_api = {}
+    skipped_pids = set()
     for i, line in enumerate(lines):
         f = line.split("\t")
         tag, key = f[0], f[1]
         if tag == "skip":
-            n_skip += 1
-            r.hist["skipped"][f[2]] += 1
+            if key.split(" ")[0] not in skipped_pids:
+                skipped_pids.add(key.split(" ")[0])
+                n_skip += 1
+                r.hist["skipped"][f[2]] += 1
             continue
         if tag == "emit":
             kf = key.split(" ")
@@ -174,9 +257,15 @@ def run(r):
                 mm = kv(model[i].split("\t")[2])
                 if (mm.get("chunks"), mm.get("bytes"), mm.get("sum"), mm.get("route")) != (o["w"], o["bytes"], o["sum"], o["route"]):
                     r.model_disagreement(case0, " ".join(f[2].split(" ")[:4]), model[i].split("\t")[2])
-                elif mm.get("flat") != o["flat"] and not (o["flat"] == "any" and mm.get("flat") in ("same", "erased-same")):
+                elif mm.get("flat") != o["flat"]:
                     r.model_disagreement(case0, "structured program: expected flatten = real ops: " + o["flat"], "flat=" + str(mm.get("flat")))
                 r.hist["structured_flatten"][mm.get("flat")] += 1
+                psyn = key.split(" ")[4] if len(key.split(" ")) > 4 else "-"
+                if psyn != "-":
+                    for tok, name in (("M", "own-output (macro, caller)"), ("S", "set block"), ("F", "filter block / captured super"), ("N0(", "include"),
+                                      ("N1(", "super"), ("D(", "discarded child output"), ("L", "loop"), ("X", "runtime error")):
+                        if any(t.startswith(tok) for t in psyn.split(".")):
+                            r.hist["structured_constructs"][name] += 1
                 n_routed += int(o["route"].split(":")[1])
             continue
         if tag != "case":
@@ -192,6 +281,9 @@ def run(r):
         if o["fail"] != "none":
             n_fail_cases += 1
             apis_with_failures.add(api_class(api))
+            r.hist["error_form"][fail_form(o["fail"])] += 1
+            forms_by_api.setdefault(api_class(api), set()).add(fail_form(o["fail"]))
+            r.hist["source_identity"][o["src"]] += 1
             pos = int(o["fail"].split("@")[1])
             r.hist["failure_position"]["first" if pos == 0 else ("last" if pos + 1 >= cur_w else "middle")] += 1
         else:
@@ -210,14 +302,12 @@ def run(r):
             r.sample({"case": key, "engine": f[2], "observed": f[3]})
     # ---- the same streams against minijinja compiled WITHOUT verif_hooks (what real users compile):
     # hooked build == unhooked build, and the property on the unhooked observations
-    exe2 = r.cargo_build("c19", no_hooks=True)
     n_unhooked = n_unhooked_user = 0
+    forms_unhooked = set()
+    forms_unhooked_api = {}
     if exe2 is not None:
-        rc, out2, err = r.harness(exe2, ["gen", r.tier, "sub"])
-        if rc != 0:
-            r.broken.append(f"unhooked harness c19 exited {rc}: {err[-300:]}")
-        else:
-            for line in out2.splitlines():
+        if out2_lines is not None:
+            for line in out2_lines:
                 f = line.split("\t")
                 if f[0] == "prog":
                     o = kv(f[2])
@@ -232,7 +322,10 @@ def run(r):
                 pid, api = key.split(" ")[0:2]
                 m, o = kv(f[2]), kv(f[3])
                 n_unhooked += 1
-                if api_class(api) in ("ufmt", "ublock", "cfmt"):
+                if o["fail"] != "none":
+                    forms_unhooked.add(fail_form(o["fail"]))
+                    forms_unhooked_api.setdefault(api_class(api), set()).add(fail_form(o["fail"]))
+                if api_class(api) in ("ufmt", "ublock", "cfmt", "cblock"):
                     n_unhooked_user += 1
                 r.count("unhooked " + key, True)
                 judge(r, key, api, clean_res.get((pid, api), "?"), m, o)
@@ -243,6 +336,7 @@ def run(r):
                     r.model_disagreement("unhooked " + key, "unhooked: " + f[2] + " | " + f[3], "hooked: " + h[0] + " | " + h[1])
             if n_unhooked < 20000:
                 r.broken.append("unhooked stream degenerate: %d cases" % n_unhooked)
+    r.extra["wall_split_s"] = {"proof+builds": round(t1 - t0, 1), "harness+model streams (parallel)": round(t2 - t1, 1), "evaluation of the observations": round(time.time() - t2, 1)}
     r.extra["cases_rerun_on_unhooked_build"] = n_unhooked
     r.extra["unhooked_user_writer_cases"] = n_unhooked_user
     r.extra["note_hooked_vs_unhooked"] = ("Output::target() differs between the builds (hooked: logging tap that splits write_fmt into "
@@ -264,10 +358,22 @@ def run(r):
         r.broken.append(f"{n_skip} generated programs did not compile — generator out of date with the template syntax")
     # non-vacuity of the tie
     sf = r.hist["structured_flatten"]
-    if model is not None and (sf["same"] < 40 or sf["erased-same"] < 40 or n_routed < 5000):
-        r.broken.append("structured/op-log tie degenerate: flatten verdicts %s, routed writes %d" % (dict(sf), n_routed))
-    if n_fail_cases < 1000 or n_ok_cases < 1000 or not {"full", "fmt", "ufmt", "cfmt", "block", "ublock", "fn"} <= apis_with_failures:
+    sc = r.hist["structured_constructs"]
+    if model is not None and (sf["same"] < 100 or n_routed < 5000 or min(sc[n] for n in ("own-output (macro, caller)", "set block", "filter block / captured super", "include", "super", "discarded child output", "loop", "runtime error")) < 20):
+        r.broken.append("structured/op-log tie degenerate: flatten verdicts %s, constructs %s, routed writes %d" % (dict(sf), dict(sc), n_routed))
+    if n_fail_cases < 1000 or n_ok_cases < 1000 or not {"full", "fmt", "ufmt", "cfmt", "block", "ublock", "cblock", "fn"} <= apis_with_failures:
         r.broken.append("fault injection degenerate: %d failing / %d clean cases, apis %s" % (n_fail_cases, n_ok_cases, sorted(apis_with_failures)))
+    # every construction of the sink's io::Error must have met every API (hooked), and the unhooked build
+    r.extra["error_forms_by_api"] = {a: sorted(v) for a, v in sorted(forms_by_api.items())}
+    for a in ("full", "fmt", "ufmt", "cfmt", "block", "ublock", "cblock", "fn"):
+        missing = set(FORMS + ["writezero"]) - forms_by_api.get(a, set())
+        if missing:
+            r.broken.append("fault injection degenerate: API %s never met a sink error built as %s" % (a, sorted(missing)))
+    if exe2 is not None and out2_lines is not None:
+        for a in ("full", "fmt", "ufmt", "cfmt", "block", "ublock", "cblock", "fn"):
+            missing = set(FORMS + ["writezero"]) - forms_unhooked_api.get(a, set())
+            if missing:
+                r.broken.append("unhooked stream degenerate: API %s never met a sink error built as %s" % (a, sorted(missing)))
 
 
 def replay(r, path):
